@@ -155,13 +155,20 @@ func fieldPath(fieldDescs protoreflect.FieldDescriptors, names ...string) []prot
 		// advance
 		if i != len(fds)-1 {
 			msgDesc := fd.Message()
-			if msgDesc == nil {
+			if msgDesc == nil || fd.IsList() || fd.IsMap() {
+				// Only singular message fields can be traversed.
 				return nil
 			}
 			fieldDescs = msgDesc.Fields()
 		}
 	}
 	return fds
+}
+
+// isSingularMessage reports whether the field holds exactly one message, the
+// only kind of field a body or response_body selector can be decoded into.
+func isSingularMessage(fd protoreflect.FieldDescriptor) bool {
+	return fd.Message() != nil && !fd.IsList() && !fd.IsMap()
 }
 
 func (p *path) alive() bool {
@@ -381,6 +388,9 @@ func (p *path) addRule(
 		if m.body == nil {
 			return fmt.Errorf("body field error %v", rule.Body)
 		}
+		if !isSingularMessage(m.body[len(m.body)-1]) {
+			return fmt.Errorf("body field error %v: not a message field", rule.Body)
+		}
 		m.hasBody = true
 	}
 
@@ -390,6 +400,9 @@ func (p *path) addRule(
 		m.resp = fieldPath(desc.Output().Fields(), strings.Split(rule.ResponseBody, ".")...)
 		if m.resp == nil {
 			return fmt.Errorf("response body field error %v", rule.ResponseBody)
+		}
+		if !isSingularMessage(m.resp[len(m.resp)-1]) {
+			return fmt.Errorf("response body field error %v: not a message field", rule.ResponseBody)
 		}
 	}
 
